@@ -1254,7 +1254,8 @@ func (m *M) callBuiltin(name string, args []*gojq.Query, e *env, in PV, emit fun
 			return err
 		}
 		if got {
-			return emit(last)
+			// the value comes out of a variable: inside a path expression its path context is that of the input
+			return emit(PV{V: last.V, C: in.C})
 		}
 		return nil
 	case "_last/1":
